@@ -14,7 +14,7 @@ INLINE = {'en': ['B-B-B', 'C-C-C', 'D-D-D', 'E-E-E', 'F-F-F', 'G-G-G'],
           'de': ['B-B-B', 'C-C-C', 'D-D-D', 'E-E-E', 'F-F-F', 'G-G-G'],
           'ru': ['Б-Б-Б', 'В-В-В', 'Г-Г-Г', 'Д-Д-Д', 'Е-Е-Е', 'Ж-Ж-Ж']}
 BABEL = {'en': 'english', 'de': 'german', 'ru': 'russian'}
-MSPACE = ['\\,', '\\;', '\\quad ', '~', '\\ ', '\\:', '\\qquad{}', '\\thinspace ', '\\medspace{}']
+MSPACE = ['\\,', '\\;', '\\quad ', '~', '\\ ', '\\:', '\\qquad{}', '\\thinspace ', '\\medspace{}', '\\\t', '\\\n']
 ATOMS = ['x', 'y', 'a', 'n', '1', '2', '0', '+', '-', '=', '<', '>', '/', '(', ')', '|', '!', '\\alpha', '\\beta ',
          '\\infty', '\\in ', '\\le ', '\\cdot ', '\\times ', '\\to ', '\\sum', '\\int', 'x_1', 'x^2', 'a_{ij}',
          'x^{n+1}', '\\frac{a}{b}', '\\sqrt{x}', '\\sqrt[3]{x}', '{a+b}', '\\mathrm{hopQ}', '\\mathbb{R}',
